@@ -126,6 +126,8 @@ class Sched(object):
         self.keepalive = []
         self.on_idle = None
         self.torn_down = False
+        self.spin = {}
+        self.nprogress = 0
 
     # ------------------------------------------------------------------ naming
     def name_of(self, obj, kind="o"):
@@ -266,6 +268,7 @@ class Sched(object):
             return
         self.cur = nxt
         self.nswitch += 1
+        self.nprogress += 1
         self.log.append((nxt.tid, "q"))
         nxt.sem.release()
         me.sem.acquire()
@@ -671,7 +674,18 @@ class CEvent(object):
         if not self.quiet:
             s.ev("wait", nm, None if untimed else timeout, self._flag)
         if self._flag:
+            # A thread that keeps finding the event set (busy-waiting for somebody else to clear it) must not keep the
+            # CPU for ever at constant virtual time: after a few immediate returns it yields until another thread has
+            # made progress (fair scheduling).
+            me = s.cur
+            key = (me.tid, id(self))
+            n = s.spin.get(key, 0) + 1
+            s.spin[key] = n
+            if n > 20:
+                snap = s.nprogress
+                s.block(lambda: s.nprogress != snap, None, ("spin", nm))
             return True
+        s.spin.pop((s.cur.tid, id(self)), None)
         if not untimed and timeout <= 0:
             s.tick()
             return self._flag
